@@ -140,10 +140,10 @@ type h265Desc struct {
 	S, E   bool
 	FuType int
 	// paci
-	A              bool
-	CType, PHS     int
-	F0, F1, F2, Y  bool
-	PHES           []byte
+	A             bool
+	CType, PHS    int
+	F0, F1, F2, Y bool
+	PHES          []byte
 }
 
 func h265B2i(b bool, v int) int {
